@@ -336,6 +336,16 @@ def decorate(e, doc, xdict=True):
         xd.add_dictionary_var("DVAR", "value")
         sub = xd.add_dictionary("SUBDICT")
         sub.add_xrecord("INNER").tags.append(DXFTag(90, 9))
+        # entries attached WITHOUT ownership transfer (index operator / Dictionary.add do not take ownership; loaded
+        # files with sloppy 330 handles have the same state): owner "0", owner = another object, owner = the entity
+        att = doc.objects.add_xrecord()
+        att.tags.append(DXFTag(1, "attached, owner 0"))
+        xd["ATTACHED0"] = att
+        att2 = doc.objects.add_xrecord(owner=doc.rootdict.dxf.handle)
+        att2.tags.append(DXFTag(1, "attached, foreign owner"))
+        xd.dictionary.add("ATTACHED1", att2)
+        xd.dictionary.add("ATTACHED2", doc.objects.add_dictionary_var(owner=e.dxf.handle or "0", value="attached"))
+        sub.add("ATTACHED3", doc.objects.add_xrecord(owner=xd.dictionary.dxf.handle))
     return e
 
 SAT = ["400 0 1 0", "body $-1 $1 $-1 $-1 #", "End-of-ACIS-data"]
@@ -537,6 +547,8 @@ def B(doc):
         d = objs.add_dictionary(owner=objs.rootdict.dxf.handle, hard_owned=True)
         d.add_xrecord("XR").tags.append(DXFTag(1, "x"))
         d.add_dict_var("DV", "v")
+        d.add("FOREIGN0", objs.add_xrecord())  # attached without ownership transfer
+        d.add("FOREIGN1", objs.add_xrecord(owner=objs.rootdict.dxf.handle))
         return d
 
     def dictionary_soft():
@@ -796,12 +808,40 @@ def candidates_of(g: Graph, a: int, b: int):
 
 
 # ----------------------------------------------------------------------------- scenarios
+BOUND_KINDS = ("copy_to_layout", "duplicate_entity", "copy_to_layout-of-copy")
+UNBOUND_KINDS = ("copy", "copy-of-copy", "siblings")
+
+
 def copy_kinds(e, doc):
     """name -> function(entity) producing a copy by the three public routes"""
     kinds = {"copy": lambda x: x.copy()}
     if is_graphic(e):
         kinds["copy_to_layout"] = lambda x: x.copy_to_layout(doc.blocks.get("TARGET") or doc.blocks.new("TARGET"))
     kinds["duplicate_entity"] = lambda x: doc.entitydb.duplicate_entity(x)
+    return kinds
+
+
+def generation_kinds(e, doc):
+    """second generation copies: name -> prep(source) -> (effective source, make_copy).  copy_data methods that
+    branch on the state of the source (DIMENSION: "another copy of a virtual entity", dictionaries: entries
+    without owner) take a different path for a source that is itself an unbound copy.
+      copy-of-copy : template = source.copy(); pair (template, template.copy())
+      siblings     : template = source.copy(); pair (template.copy(), template.copy())
+      bound-copy-of-copy : pair (template, template.copy_to_layout(block) / duplicate of it)"""
+    def of_copy(src):
+        t = src.copy()
+        return t, (lambda x: x.copy())
+
+    def siblings(src):
+        t = src.copy()
+        return t.copy(), (lambda x, t=t: t.copy())
+
+    kinds = {"copy-of-copy": of_copy, "siblings": siblings}
+    if is_graphic(e):
+        def bound_of_copy(src):
+            t = src.copy()
+            return t, (lambda x: x.copy_to_layout(doc.blocks.get("TARGET") or doc.blocks.new("TARGET")))
+        kinds["copy_to_layout-of-copy"] = bound_of_copy
     return kinds
 
 
@@ -1113,6 +1153,13 @@ def generic_mutators(e, rng):
         ("xdict.subdict_discard", lambda x: _xd(x)["SUBDICT"].discard("INNER")),
         ("xdict.dictionary_attr", lambda x: setattr(_xd(x).dictionary.dxf, "cloning", 2)),
         ("xdict.entry_xdata", lambda x: _xd(x)["XREC"].set_xdata("VERIF", [(1000, "entry")])),
+        ("xdict.attached0_tags", lambda x: _xd(x)["ATTACHED0"].tags.append(DXFTag(1, "more"))),
+        ("xdict.attached0_reset", lambda x: _xd(x)["ATTACHED0"].reset([(1, "reset")])),
+        ("xdict.attached1_tags", lambda x: _xd(x)["ATTACHED1"].tags.append(DXFTag(1, "more"))),
+        ("xdict.attached1_attr", lambda x: setattr(_xd(x)["ATTACHED1"].dxf, "cloning", 0)),
+        ("xdict.attached2_value", lambda x: setattr(_xd(x)["ATTACHED2"].dxf, "value", "changed")),
+        ("xdict.attached3_tags", lambda x: _xd(x)["SUBDICT"]["ATTACHED3"].tags.append(DXFTag(1, "more"))),
+        ("xdict.attached0_destroy", lambda x: _xd(x)["ATTACHED0"].destroy()),
     ]
     if is_graphic(e):
         out += [
@@ -1300,6 +1347,8 @@ def specific_mutators(e, rng):
         add("di.setitem", lambda x: x.__setitem__("K2", x.doc.objects.add_xrecord(owner=x.dxf.handle or "0")))
         add("di.clear", lambda x: x._data.clear())
         add("di.dictvar", lambda x: setattr(x["DV"].dxf, "value", "changed"))
+        add("di.foreign0_tags", lambda x: x["FOREIGN0"].tags.append(DXFTag(1, "more")))
+        add("di.foreign1_tags", lambda x: x["FOREIGN1"].tags.append(DXFTag(1, "more")))
     if t == "XRecord":
         add("xr.tags_append", lambda x: x.tags.append(DXFTag(1, "more")))
         add("xr.tags_setitem", lambda x: x.tags.__setitem__(0, DXFTag(1, "other")))
@@ -1694,7 +1743,7 @@ def check_content_and_handles(ctx, name, kname, src, c, doc, handles_before):
         if h is not None and doc.entitydb.get(h) is not e:
             ctx.fail(f"handle-db/{cls}/{kname}/{type(e).__name__}", f"{name}: {kname}: handle #{h} of the copy does not map to the copy in the entity database",
                      {"op": "handle", "builder": name, "kind": kname})
-    if kname == "copy":
+    if kname in UNBOUND_KINDS:
         if c.dxf.handle is not None or c.dxf.owner is not None:
             ctx.fail(f"handle/{cls}/copy/top", f"{name}: copy() carries handle {c.dxf.handle} / owner {c.dxf.owner}", {"op": "handle", "builder": name, "kind": kname})
         if c.reactors is not None:
@@ -1808,17 +1857,20 @@ def sweep_one(ctx, name):
         cls = type(proto).__name__
         muts = ordered(all_mutators(proto, rng))
         vname = name if v == 0 else f"{name}~{v}"
-        for kname, kf in copy_kinds(proto, doc).items():
-            bound = kname != "copy"
-            if bound and v > 0 and quick:
+        kinds = [(k, (lambda src, f=f: (src, f))) for k, f in copy_kinds(proto, doc).items()]
+        kinds += list(generation_kinds(proto, doc).items())
+        for kname, prep in kinds:
+            bound = kname in BOUND_KINDS
+            first_gen = kname in ("copy", "copy_to_layout", "duplicate_entity")
+            if (bound or not first_gen) and v > 0 and quick:
                 continue
             sel = muts
-            if bound and quick:  # the bound routes share CopyStrategy.copy with copy(): sample the attribute setters
+            if (bound or not first_gen) and quick:  # these routes share CopyStrategy.copy with copy(): sample the attribute setters
                 sel = [m for m in muts if not m[0].startswith("dxf.") or rng.random() < 0.2]
             # ---- direction 1: mutate the copy, the source (and every other database entry) must not change
-            src = make(v)
-            handles_before = set(doc.entitydb.keys())
             try:
+                src, kf = prep(make(v))
+                handles_before = set(doc.entitydb.keys())
                 c = kf(src)
             except ezdxf.DXFError:
                 continue
@@ -1844,7 +1896,7 @@ def sweep_one(ctx, name):
                     ctx.fail(f"shared-db/{first_component(d.split(' changed at ')[-1])}/{cls}/{kname}", f"{vname}: mutating unbound copies changed a database entry: {d}",
                              {"op": "sweep-db", "builder": name, "kind": kname})
             # ---- direction 2: mutate the source, the copy must not change
-            src = make(v)
+            src, kf = prep(make(v))
             c = kf(src)
             before = fingerprint(c)
             for mname, fn in sel:
